@@ -170,14 +170,56 @@ pub fn sp(id: u16) -> u32 {
 }
 
 // async-world sources and helpers ---------------------------------------------------------------
-pub fn sf(id: u16) -> futures::future::Ready<u32> {
-    futures::future::ready(sp(id))
+/// Pending points inside the sources of the async worlds. With `STUTTER` on, a source future is `Pending` (self-woken) on
+/// its first poll and a source stream before every item and before its end — the same on the macro side and on the
+/// reference side of a twin, so value and per-branch traces must still agree. Off: the sources are ready at once.
+pub static STUTTER: std::sync::atomic::AtomicBool = std::sync::atomic::AtomicBool::new(false);
+pub static STUTTERS: std::sync::atomic::AtomicU64 = std::sync::atomic::AtomicU64::new(0);
+pub struct Stut<F> {
+    f: F,
+    armed: bool,
 }
-pub fn stf(id: u16) -> futures::future::Ready<Result<u32, u8>> {
-    futures::future::ready(sr(id))
+impl<F: std::future::Future + Unpin> std::future::Future for Stut<F> {
+    type Output = F::Output;
+    fn poll(mut self: std::pin::Pin<&mut Self>, cx: &mut std::task::Context<'_>) -> std::task::Poll<F::Output> {
+        if !self.armed && STUTTER.load(std::sync::atomic::Ordering::SeqCst) {
+            self.armed = true;
+            STUTTERS.fetch_add(1, std::sync::atomic::Ordering::SeqCst);
+            cx.waker().wake_by_ref();
+            return std::task::Poll::Pending;
+        }
+        self.armed = true;
+        std::pin::Pin::new(&mut self.f).poll(cx)
+    }
 }
-pub fn ss(id: u16) -> futures::stream::Iter<std::vec::IntoIter<u32>> {
-    futures::stream::iter(si(id))
+pub struct StutS<S> {
+    s: S,
+    armed: bool,
+}
+impl<S: futures::Stream + Unpin> futures::Stream for StutS<S> {
+    type Item = S::Item;
+    fn poll_next(mut self: std::pin::Pin<&mut Self>, cx: &mut std::task::Context<'_>) -> std::task::Poll<Option<S::Item>> {
+        if !self.armed && STUTTER.load(std::sync::atomic::Ordering::SeqCst) {
+            self.armed = true;
+            STUTTERS.fetch_add(1, std::sync::atomic::Ordering::SeqCst);
+            cx.waker().wake_by_ref();
+            return std::task::Poll::Pending;
+        }
+        self.armed = false;
+        std::pin::Pin::new(&mut self.s).poll_next(cx)
+    }
+    fn size_hint(&self) -> (usize, Option<usize>) {
+        self.s.size_hint()
+    }
+}
+pub fn sf(id: u16) -> Stut<futures::future::Ready<u32>> {
+    Stut { f: futures::future::ready(sp(id)), armed: false }
+}
+pub fn stf(id: u16) -> Stut<futures::future::Ready<Result<u32, u8>>> {
+    Stut { f: futures::future::ready(sr(id)), armed: false }
+}
+pub fn ss(id: u16) -> StutS<futures::stream::Iter<std::vec::IntoIter<u32>>> {
+    StutS { s: futures::stream::iter(si(id)), armed: false }
 }
 pub fn fut_inc<const ID: u16, F: std::future::Future<Output = u32>>(f: F) -> impl std::future::Future<Output = u32> {
     async move {
@@ -563,8 +605,12 @@ fn c18z(twins: &'static [Twin], out: Option<String>, only: Option<u32>, only_pla
             let n = plans.len();
             plans = (0..max_plans).map(|i| plans[(i * n / max_plans + (t.id as usize % (n / max_plans).max(1))) % n].clone()).collect();
         }
-        for p in plans {
-            let pstr = p.iter().map(|(i, s)| format!("{}:{}", i, s)).collect::<Vec<_>>().join(",");
+        // async kinds: every plan once with sources that are ready at once and once with pending points inside them
+        let modes: &[bool] = if t.kind.contains("async") { &[false, true] } else { &[false] };
+        for (p, stutter) in plans.into_iter().flat_map(|p| modes.iter().map(move |m| (p.clone(), *m))) {
+            let pstr = format!("{}{}", p.iter().map(|(i, s)| format!("{}:{}", i, s)).collect::<Vec<_>>().join(","), if stutter { "/st" } else { "" });
+            STUTTER.store(stutter, std::sync::atomic::Ordering::SeqCst);
+            let stutters_before = STUTTERS.load(std::sync::atomic::Ordering::SeqCst);
             if let Some(op) = &only_plan {
                 if &pstr != op {
                     continue;
@@ -578,6 +624,9 @@ fn c18z(twins: &'static [Twin], out: Option<String>, only: Option<u32>, only_pla
             }
             plan::install(t.max_id, &p);
             let ok = run_worker(t.m, None, None);
+            if STUTTERS.load(std::sync::atomic::Ordering::SeqCst) > stutters_before {
+                bump(&mut cover, "plans_with_pending_points_inside_sources");
+            }
             let ml = ok.log;
             match ok.res {
                 Some(Res::Val(_)) => {}
@@ -832,8 +881,12 @@ pub fn main(twins: &'static [Twin]) {
                 plans.truncate(24);
             }
         }
-        for p in plans {
-            let pstr = p.iter().map(|(i, s)| format!("{}:{}", i, s)).collect::<Vec<_>>().join(",");
+        // async kinds: every plan once with sources that are ready at once and once with pending points inside them
+        let modes: &[bool] = if t.kind.contains("async") { &[false, true] } else { &[false] };
+        for (p, stutter) in plans.into_iter().flat_map(|p| modes.iter().map(move |m| (p.clone(), *m))) {
+            let pstr = format!("{}{}", p.iter().map(|(i, s)| format!("{}:{}", i, s)).collect::<Vec<_>>().join(","), if stutter { "/st" } else { "" });
+            STUTTER.store(stutter, std::sync::atomic::Ordering::SeqCst);
+            let stutters_before = STUTTERS.load(std::sync::atomic::Ordering::SeqCst);
             if let Some(op) = &only_plan {
                 if &pstr != op {
                     continue;
@@ -942,6 +995,13 @@ pub fn main(twins: &'static [Twin]) {
                 }
             }
             *cover.entry(format!("kind:{}", t.kind)).or_insert(0) += 1;
+            if stutter {
+                let n = STUTTERS.load(std::sync::atomic::Ordering::SeqCst) - stutters_before;
+                if n > 0 {
+                    *cover.entry("async_runs_with_pending_points_inside_sources".to_string()).or_insert(0) += 1;
+                    *cover.entry("pending_points_taken_inside_source_futures_and_streams".to_string()).or_insert(0) += n;
+                }
+            }
             if trace {
                 println!("TWIN {} [{}] plan {}\n  dsl: {}\n  ref: {}\n  macro value {:?}\n  ref value   {:?}\n  macro trace {}\n  ref trace   {}", t.id, t.kind, pstr, t.text, t.reference, mv, rv, show(&ml), show(&rl));
             }
